@@ -16,7 +16,9 @@ EDGES = [0.1, 0.2, 0.3, 0.4]
 PROGRAMS = ("create-centres", "create-ids", "create-hdf", "create-parquet", "create-random", "create-num", "load", "trees",
             "hist", "auto", "cross", "io",
             # the same with progress=True: the progress indicator wraps the result generators on the root rank
-            "create-ids+p", "trees+p", "hist+p", "cross+p")
+            "create-ids+p", "trees+p", "hist+p", "cross+p",
+            # faulty requests that a single process refuses with an error: under MPI the error must surface as well
+            "refuse-badprobe", "refuse-empty-centre")
 NEEDS_FIXTURE = ("load", "trees", "hist", "auto", "cross", "trees+p", "hist+p", "cross+p")
 
 
@@ -145,6 +147,21 @@ def program(name, d, max_workers=None):
         Indicator.__init__.__kwdefaults__["stream"] = open(os.devnull, "w")
         name, prog = name[:-2], dict(progress=True)
         mw = dict(mw, **prog)
+    if name.startswith("refuse-"):
+        try:
+            if name == "refuse-badprobe":
+                from yaw.randoms import BoxRandoms
+
+                gen = BoxRandoms(9.0, 17.0, -0.5, 1.0, seed=5)
+                Catalog.from_random(out + "/rand", gen, 7, patch_num=2, probe_size=50, chunksize=3, **mw)
+            else:
+                from yaw import AngularCoordinates
+
+                cen = AngularCoordinates(np.deg2rad([[10.6, 0.2], [100.0, 50.0], [15.6, 0.2]]))  # the second attracts nothing
+                Catalog.from_dataframe(out + "/R", R, ra_name="ra", dec_name="dec", patch_centers=cen, chunksize=3, **mw)
+        except Exception as e:  # noqa: BLE001
+            return f"raised:{type(e).__name__}"
+        return "returned"
     if name == "create-centres":
         cat = Catalog.from_dataframe(out + "/R", R, ra_name="ra", dec_name="dec", redshift_name="z", weight_name="w",
                                      patch_centers=centres(), chunksize=3, **mw)
